@@ -6,7 +6,7 @@ From V Require Import C11.Model C11.Spec C11.Lemmas.
 From stdpp Require Import gmap.
 From Coq Require Import ZArith.
 From V Require Import Base.Codec Base.Res Sched.LedgerModel Sched.StmtModel Sched.GangModel Sched.LedgerCodec
-                      C04.Model C04.Frame C04.VoteLemmas C04.Lemmas C04.Eligible C04.Codec.
+                      C04.Model C04.Frame C04.VoteLemmas C04.CapLemmas C04.Lemmas C04.Eligible C04.Codec.
 Open Scope Z_scope.
 
 (* ---------- the votes ---------- *)
@@ -43,6 +43,39 @@ Theorem proportion_vote : forall (eps : Z) (E : env) (s : sess) (l : list task) 
                (qx_des_hi q) DZero = false.
 Proof. exact prop_vote_victim_above. Qed.
 Print Assumptions proportion_vote.
+
+(* capacity (flat queues), for EVERY reclaimer, candidate list, pop order and queue records: after ALL victims
+   of the call are gone, every queue that lost one still holds its guarantee (Resource.LessEqual with the
+   Zero default: every dimension of the guarantee) *)
+Theorem capacity_vote_keeps_guarantee : forall (eps : Z) (E : env) (s : sess) (p : task) (l : list task) (qid : positive) (q : qx),
+  e_queues E !! qid = Some q ->
+  queue_victims s qid (cap_vote eps E s p l) <> [] ->
+  less_equal eps (qx_cap_guar q)
+    (sub_reqs (share_of s qid) (queue_victims s qid (cap_vote eps E s p l))) DZero = true.
+Proof. exact cap_vote_keeps_guarantee. Qed.
+Print Assumptions capacity_vote_keeps_guarantee.
+
+(* ... and each victim was taken under [cap_takes], evaluated on the queue's allocation at the start of the
+   call minus the same queue's victims popped before it: it shares a resource name with the reclaimer,
+   leaves the guarantee intact, and the queue is "above deserved" AS THE CODE DEFINES IT: the victim requests
+   nothing the deserved vector holds, or allocated > deserved in SOME dimension the victim requests *)
+Theorem capacity_vote_victim_taken : forall (eps : Z) (E : env) (s : sess) (p : task) (l : list task) (c : task),
+  c ∈ cap_vote eps E s p l ->
+  exists j q before,
+    jobs s !! t_job c = Some j /\ e_queues E !! j_queue j = Some q /\
+    (forall b, b ∈ before -> b ∈ cap_vote eps E s p l) /\
+    cap_takes eps q p c (sub_reqs (share_of s (j_queue j)) (queue_victims s (j_queue j) before)).
+Proof. exact cap_vote_victim_taken. Qed.
+Print Assumptions capacity_vote_victim_taken.
+
+(* the gap to the property text "its queue is above its deserved share": the code is content with ONE
+   dimension; a queue far below deserved in cpu loses a pod because it is above deserved in memory *)
+Theorem above_deserved_in_every_dimension_refuted :
+  exists eps E s p l c j q,
+    c ∈ cap_vote eps E s p l /\ jobs s !! t_job c = Some j /\ e_queues E !! j_queue j = Some q /\
+    cpu (share_of s (j_queue j)) < cpu (qx_cap_des q).
+Proof. exact CapLemmas.above_deserved_in_every_dimension_refuted. Qed.
+Print Assumptions above_deserved_in_every_dimension_refuted.
 
 Theorem victims_subset_candidates : forall (eps : Z) (E : env) (k : akind) (s : sess) (p : task) (l : list task) (c : task),
   c ∈ victims eps E k s p l -> c ∈ l.
@@ -128,7 +161,9 @@ Theorem eviction_eligible : forall (eps : Z) (E : env) (cs : list choice) (s s' 
     nodes (a_pre r) !! a_node r = Some n /\ (exists i, n_tasks n !! i = Some c) /\
     cand_ok E (a_kind r) (a_pre r) (a_task r) (a_queue r) c = true /\
     c ∈ a_cands r /\
-    exists tier, deciding eps E (a_kind r) (a_pre r) (a_task r) (a_cands r) tier /\
+    (* E with the capacity plugin's pop order of this vote installed; nothing else differs *)
+    let E' := with_qorder E (a_qorder r) in
+    exists tier, deciding eps E' (a_kind r) (a_pre r) (a_task r) (a_cands r) tier /\
       forall pl, pl ∈ tier -> plug_enabled (a_kind r) pl = true ->
         match p_kind pl with
         | KGang => c ∈ gang_vote (a_pre r) (a_cands r)
@@ -136,7 +171,8 @@ Theorem eviction_eligible : forall (eps : Z) (E : env) (cs : list choice) (s s' 
         | KPrio => is_reclaim (a_kind r) = false ->
             (t_job c <> t_job (a_task r) /\ jprio E (t_job c) < jprio E (t_job (a_task r))) \/
             (t_job c = t_job (a_task r) /\ t_prio c < t_prio (a_task r))
-        | KProp => is_reclaim (a_kind r) = true -> c ∈ prop_vote eps E (a_pre r) (a_cands r)
+        | KProp => is_reclaim (a_kind r) = true -> c ∈ prop_vote eps E' (a_pre r) (a_cands r)
+        | KCap => is_reclaim (a_kind r) = true -> c ∈ cap_vote eps E' (a_pre r) (a_task r) (a_cands r)
         end.
 Proof. exact Eligible.eviction_eligible. Qed.
 Print Assumptions eviction_eligible.
@@ -177,18 +213,18 @@ Theorem all_consulted_voters_respected_refuted :
 Proof. exact Eligible.all_consulted_voters_respected_refuted. Qed.
 Print Assumptions all_consulted_voters_respected_refuted.
 
-(* ---------- non-vacuity: a real cycle (harness seed 1, cycle-1584: a node attempt whose Pipeline
+(* ---------- non-vacuity: a real cycle (harness seed 1, cycle-232: a node attempt whose Pipeline
    fails by a scripted handler fault and is rolled back, then a committed eviction on another node) replayed by the model ---------- *)
-Definition ex_toks : list Z := [2; 3; 1; 1; 1500; 3670016; 3; 0; 2; 1; 1000; 1048576; 2; 1; 3; 1; 1000; 4194304; 5; 0; 2; 1; 1; 2; 0; 0; 2; 1; 3; 0; 0; 3; 1; 1; 0; 0; 3; 2; 1; 1; 0; 3; 3; 1; 1; 0; 2; 5; 1; 1; 1; 0; 250; 2097152; 0; 1; 0; 0; 2; 1; 1; 0; 1500; 3145728; 0; 6; 1; 1; 3; 1; 1; 0; 1500; 1048576; 0; 8; 1; 1; 4; 2; 1; 0; 500; 0; 0; 1; 0; 1; 5; 3; 1; 2; 500; 1572864; 0; 1; 0; 1; 3; 1; 0; 0; 2; 3; 0; 3; 3; 0; 5; 1; 0; 2; 0; 3; 0; 4; 0; 5; 2; 2; 1; 0; 2; 0; 3; 1; 4; 1; 1; 2; 1; 1; 1; 3; 1; 1; 0; 1; 1; 3; 1; 1; 1; 2; 4; 1; 0; 1; 1; 44000; 109051904; 1; 2; 1; 64; 4; 0; 44000; 109051904; 1; 2; 1; 64; 4; 0; 44000; 109051904; 1; 2; 1; 64; 4; 0; 2; 1; 2; 1; 4; 2; 1; 1; 2; 1; 2; 2; 0; 0; 1; 3; 1; 5; 1; 1; 1; 2; 1; 2].
+Definition ex_toks : list Z := [2; 2; 1; 1; 1500; 8912896; 7; 1; 2; 1; 1000; 8388608; 5; 0; 2; 1; 1; 2; 0; 0; 2; 1; 3; 2000; 0; 2; 1; 1; 0; 0; 3; 2; 1; 5; 0; 3; 6; 1; 1; 1; 0; 1000; 524288; 1; 6; 1; 1; 2; 2; 1; 2; 500; 0; 0; 1; 0; 1; 3; 2; 1; 2; 750; 1572864; 0; 1; 0; 0; 4; 2; 1; 1; 500; 0; 0; 6; 1; 1; 5; 2; 1; 1; 250; 3145728; 0; 1; 0; 1; 6; 2; 1; 0; 1500; 2097152; 0; 1; 0; 1; 2; 1; 0; 0; 2; 2; 0; 6; 1; 0; 2; 0; 3; 0; 4; 0; 5; 0; 6; 0; 2; 1; 2; 2; 1; 2; 1; 0; 0; 0; 0; 2; 0; 0; 0; 0; 3; 0; 2; 4; 1; 1; 1; 1; 1; 2; 2; 1; 1; 3; 1; 1; 2; 1; 2; 1; 3; 2; 0; 1; 1; 40000; 117440512; 1; 2; 1; 96; 4; 16000; 40000; 117440512; 1; 2; 1; 96; 4; 16000; 40000; 117440512; 1; 2; 1; 96; 4; 16000; 0; 3; 1; 2; 3; 2; 1; 1; 1; 1; 1; 1; 1; 1; 3; 1; 2; 0; 0; 0; 5; 1; 1; 0; 0; 0; 2; 2; 2; 1; 1; 1; 4; 1; 4; 1; 4; 2; 2; 3; 1; 2; 0; 0; 0].
 
 Definition ex_result : option (list positive * nat * bool) :=
   match run_dec dCase ex_toks with
   | Some c =>
     let sp := cs_spec c in
-    let '(s', lg) := run (sp_eps sp) (env_of sp (cs_lims c)) (sess_of sp) (cs_choices c) in
+    let '(s', lg) := run (sp_eps sp) (env_of sp (cs_lims c) (cs_clims c)) (sess_of sp) (cs_choices c) in
     Some (evicts s', length lg, forallb a_ok lg)
   | None => None
   end.
 
-Example ex_run_commits_an_eviction : ex_result = Some ([2%positive], 2%nat, true).
+Example ex_run_commits_an_eviction : ex_result = Some ([4%positive], 1%nat, true).
 Proof. vm_compute. reflexivity. Qed.
